@@ -118,7 +118,7 @@ func finish(prop, tier string, seed int64, ps *PropSpec, l *loaded, results []*H
 				continue
 			}
 			dir := filepath.Join(replayRoot, fmt.Sprintf("%s-%d", r.Spec.Name, i))
-			in := &replayIn{Harness: r.Spec.Name, Tape: v.Tape, Params: r.Cfg, Timeout: 20, Property: prop, Kind: v.Kind, Where: v.Where, Msg: v.Msg, Func: v.Func, Pkg: ps.Pkg, Expect: v.Obs}
+			in := &replayIn{Harness: r.Spec.fn(), Tape: v.Tape, Params: r.Cfg, Timeout: 20, Property: prop, Kind: v.Kind, Where: v.Where, Msg: v.Msg, Func: v.Func, Pkg: ps.Pkg, Expect: v.Obs}
 			out, err := runNative(nb, in, dir)
 			if err != nil {
 				errorsOut = append(errorsOut, "replay: "+err.Error())
@@ -162,7 +162,7 @@ func finish(prop, tier string, seed int64, ps *PropSpec, l *loaded, results []*H
 				break
 			}
 			dir := filepath.Join(l.tmpDir, "samples", fmt.Sprintf("%s-%d", r.Spec.Name, i))
-			in := &replayIn{Harness: r.Spec.Name, Tape: s.Tape, Params: r.Cfg, Timeout: 20, Pkg: ps.Pkg, Expect: s.Obs}
+			in := &replayIn{Harness: r.Spec.fn(), Tape: s.Tape, Params: r.Cfg, Timeout: 20, Pkg: ps.Pkg, Expect: s.Obs}
 			out, err := runNative(nb, in, dir)
 			if err != nil {
 				errorsOut = append(errorsOut, "validation: "+err.Error())
